@@ -5,7 +5,9 @@ package state
 import (
 	"bytes"
 
+	"github.com/ethereum/go-ethereum/core/types"
 	"github.com/ethereum/go-ethereum/crypto"
+	"github.com/protolambda/zrnt/eth2/beacon/capella"
 	"github.com/holiman/uint256"
 	"github.com/protolambda/zrnt/eth2/beacon/common"
 	"github.com/protolambda/ztyp/codec"
@@ -16,6 +18,9 @@ import (
 func init() {
 	vsRegister("C13.node_proof", vhC13NodeProof)
 	vsRegister("C13.store_last_node", vhC13StoreLastNode)
+	vsRegister("C13.bytecode_binding", vhC13BytecodeBinding)
+	vsRegister("C13.storage_node_binding", vhC13StorageNodeBinding)
+	vsRegister("C13.account_state_path", vhC13AccountStatePath)
 }
 
 // validateNodeTrieProof with keccak as an injective uninterpreted function and DecodeTrieNode as a
@@ -121,4 +126,176 @@ func vhC13StoreLastNode() {
 	vsAssert(bytes.Equal(st.val, want.Bytes()), "stored-value-is-the-last-node-only")
 	vsAssert(bytes.Equal(st.key, id), "stored-under-the-content-id")
 	vsCover("stored")
+}
+
+// ---- glue of the contract-storage and bytecode validators --------------------------------------
+
+var vhErr13 = storage.ErrContentNotFound
+
+// vmOracle13: the header source; records which block hash was asked for.
+type vmOracle13 struct {
+	asked [][]byte
+	root  [32]byte
+	fails bool
+}
+
+func (o *vmOracle13) GetHistoricalSummaries(epoch uint64) (capella.HistoricalSummaries, error) {
+	return nil, vhErr13
+}
+func (o *vmOracle13) GetBlockHeaderByHash(hash []byte) (*types.Header, error) {
+	o.asked = append(o.asked, append([]byte(nil), hash...))
+	if o.fails {
+		return nil, vhErr13
+	}
+	return &types.Header{Root: o.root}, nil
+}
+func (o *vmOracle13) GetFinalizedStateRoot() ([]byte, error) { return nil, vhErr13 }
+
+// recorded calls of the two proof checkers (each has its own harness: node_proof, account_state_path)
+var (
+	vhAcctCalls []vhAcctCall
+	vhAcct      *types.StateAccount
+	vhAcctFails bool
+	vhNodeCalls []vhNodeCall
+	vhNodeFails bool
+)
+
+type vhAcctCall struct{ root, addr common.Bytes32 }
+type vhNodeCall struct {
+	root, hash common.Bytes32
+	path       []byte
+	proof      *TrieProof
+}
+
+func vmValidateAccountState(rootHash, addressHash common.Bytes32, proof *TrieProof) (*types.StateAccount, error) {
+	vhAcctCalls = append(vhAcctCalls, vhAcctCall{rootHash, addressHash})
+	if vhAcctFails {
+		return nil, vhErr13
+	}
+	return vhAcct, nil
+}
+
+func vmValidateNodeTrieProof(rootHash, nodeHash common.Bytes32, path *Nibbles, proof *TrieProof) error {
+	vhNodeCalls = append(vhNodeCalls, vhNodeCall{rootHash, nodeHash, append([]byte(nil), path.Nibbles...), proof})
+	if vhNodeFails {
+		return vhErr13
+	}
+	return nil
+}
+
+func vhSer(v interface {
+	Serialize(w *codec.EncodingWriter) error
+}) []byte {
+	var b bytes.Buffer
+	vsAssume(v.Serialize(codec.NewEncodingWriter(&b)) == nil)
+	return b.Bytes()
+}
+
+// A bytecode item is accepted only if the account proven - under the state root of the header with
+// the content's block hash, at the key's address hash - has the code hash named in the key.
+//
+//verif:harness C13.bytecode_binding unwind=90 timeout=60
+//verif:exec github.com/protolambda/ztyp/codec github.com/protolambda/ztyp/view github.com/protolambda/zrnt/eth2/beacon/common
+//verif:uf,injective github.com/ethereum/go-ethereum/crypto.Keccak256
+//verif:model github.com/zen-eth/shisui/state.validateAccountState = vmValidateAccountState
+func vhC13BytecodeBinding() {
+	key := &ContractBytecodeKey{AddressHash: common.Bytes32(vsArr32("address-hash")), CodeHash: common.Bytes32(vsArr32("key-code-hash"))}
+	content := &ContractBytecodeWithProof{Code: ContractByteCode(vsBytes("code", 3)), AccountProof: TrieProof{EncodedTrieNode(vsBytesN("raw", 2))}, BlockHash: common.Bytes32(vsArr32("block-hash"))}
+	o := &vmOracle13{root: vsArr32("state-root"), fails: vsBool("no-header")}
+	vhAcctCalls, vhAcctFails = nil, vsBool("account-proof-invalid")
+	acctCode := vsBytesN("account-code-hash", 32)
+	vhAcct = &types.StateAccount{CodeHash: acctCode, Root: vsArr32("storage-root")}
+	v := &StateValidator{validationOracle: o}
+	err := v.ValidateContent(append([]byte{ContractByteCodeType}, vhSer(key)...), vhSer(content))
+	if err != nil {
+		vsCover("rejected")
+		return
+	}
+	vsCover("accepted")
+	vsAssert(!o.fails && len(o.asked) == 1 && bytes.Equal(o.asked[0], content.BlockHash[:]), "header-is-the-one-of-the-contents-block-hash")
+	vsAssert(!vhAcctFails && len(vhAcctCalls) == 1, "account-proof-checked")
+	vsAssert(vhAcctCalls[0].root == common.Bytes32(o.root), "account-proven-under-that-headers-state-root")
+	vsAssert(vhAcctCalls[0].addr == key.AddressHash, "account-proven-at-the-keys-address-hash")
+	vsAssert(bytes.Equal(acctCode, key.CodeHash[:]), "proven-accounts-code-hash-equals-the-keys")
+}
+
+// A contract-storage trie node is accepted only if the account is proven under the header's state
+// root at the key's address hash and the node proof is checked against THAT account's storage root
+// with the key's path and node hash.
+//
+//verif:harness C13.storage_node_binding unwind=90 timeout=60
+//verif:exec github.com/protolambda/ztyp/codec github.com/protolambda/ztyp/view github.com/protolambda/zrnt/eth2/beacon/common
+//verif:uf,injective github.com/ethereum/go-ethereum/crypto.Keccak256
+//verif:model github.com/zen-eth/shisui/state.validateAccountState = vmValidateAccountState
+//verif:model github.com/zen-eth/shisui/state.validateNodeTrieProof = vmValidateNodeTrieProof
+func vhC13StorageNodeBinding() {
+	pl := vsChoose("path-len", 3)
+	path := make([]byte, pl)
+	for i := range path {
+		path[i] = vsU8("nibble") & 15
+	}
+	key := &ContractStorageTrieNodeKey{AddressHash: common.Bytes32(vsArr32("address-hash")), Path: Nibbles{Nibbles: path}, NodeHash: common.Bytes32(vsArr32("node-hash"))}
+	content := &ContractStorageTrieNodeWithProof{StorageProof: TrieProof{EncodedTrieNode(vsBytesN("sraw", 2))}, AccountProof: TrieProof{EncodedTrieNode(vsBytesN("araw", 3))}, BlockHash: common.Bytes32(vsArr32("block-hash"))}
+	o := &vmOracle13{root: vsArr32("state-root"), fails: vsBool("no-header")}
+	vhAcctCalls, vhAcctFails = nil, vsBool("account-proof-invalid")
+	vhNodeCalls, vhNodeFails = nil, vsBool("node-proof-invalid")
+	vhAcct = &types.StateAccount{CodeHash: vsBytesN("account-code-hash", 32), Root: vsArr32("storage-root")}
+	v := &StateValidator{validationOracle: o}
+	err := v.ValidateContent(append([]byte{ContractStorageTrieNodeType}, vhSer(key)...), vhSer(content))
+	if err != nil {
+		vsCover("rejected")
+		return
+	}
+	vsCover("accepted")
+	vsAssert(!o.fails && len(o.asked) == 1 && bytes.Equal(o.asked[0], content.BlockHash[:]), "header-is-the-one-of-the-contents-block-hash")
+	vsAssert(!vhAcctFails && len(vhAcctCalls) == 1 && vhAcctCalls[0].root == common.Bytes32(o.root) && vhAcctCalls[0].addr == key.AddressHash, "account-proven-under-the-state-root-at-the-keys-address")
+	vsAssert(!vhNodeFails && len(vhNodeCalls) == 1, "node-proof-checked")
+	c := vhNodeCalls[0]
+	vsAssert(c.root == common.Bytes32(vhAcct.Root), "node-proven-under-the-accounts-storage-root")
+	vsAssert(c.hash == key.NodeHash && bytes.Equal(c.path, path), "node-proof-uses-the-keys-path-and-hash")
+	vsAssert(len(*c.proof) == 1 && bytes.Equal((*c.proof)[0], content.StorageProof[0]), "node-proof-is-the-storage-proof")
+}
+
+var (
+	vhTrieCalls []vhNodeCall
+	vhTrieRest  []byte
+	vhTrieLast  EncodedTrieNode
+)
+
+func vmValidateTrieProof(rootHash common.Bytes32, path []byte, proof *TrieProof) (EncodedTrieNode, []byte, error) {
+	vhTrieCalls = append(vhTrieCalls, vhNodeCall{root: rootHash, path: append([]byte(nil), path...), proof: proof})
+	if vsBool("trie-proof-invalid") {
+		return nil, nil, vhErr13
+	}
+	return vhTrieLast, vhTrieRest, nil
+}
+
+// validateAccountState walks the account proof along the 64 nibbles of the address hash (high
+// nibble first) under the given root, and fails when the walk fails.
+//
+//verif:harness C13.account_state_path unwind=90 timeout=60
+//verif:model github.com/zen-eth/shisui/state.validateTrieProof = vmValidateTrieProof
+//verif:model github.com/zen-eth/shisui/state/trie.DecodeTrieNode = vmDecode
+//verif:stub havoc,nilable github.com/ethereum/go-ethereum/core/types.FullAccount
+func vhC13AccountStatePath() {
+	trie.VhMaxKey = 1
+	root, addr := common.Bytes32(vsArr32("root")), common.Bytes32(vsArr32("address-hash"))
+	vhTrieCalls = nil
+	vhTrieLast = EncodedTrieNode(vsBytesN("raw", 4))
+	trie.VhNewNode(vhTrieLast)
+	vhTrieRest = []byte{vsU8("rest-nibble") & 15}
+	proof := &TrieProof{vhTrieLast}
+	_, err := validateAccountState(root, addr, proof)
+	vsAssert(len(vhTrieCalls) == 1, "proof-walked-once")
+	c := vhTrieCalls[0]
+	vsAssert(c.root == root && c.proof == proof, "walk-starts-at-the-given-root-with-the-given-proof")
+	vsAssert(len(c.path) == 64, "path-has-64-nibbles")
+	for i := 0; i < 32; i++ {
+		vsAssert(c.path[2*i] == addr[i]>>4 && c.path[2*i+1] == addr[i]&15, "path-is-the-address-hash-high-nibble-first")
+	}
+	if err == nil {
+		vsCover("accepted")
+	} else {
+		vsCover("rejected")
+	}
 }
